@@ -41,7 +41,8 @@ pub fn gen_item(rng: &mut Rng, sym: u8, elev: u8, uniq: u32) -> Item {
     // unique, strictly positive time per item
     let mut hdr = MsgHeader::realistic(rng, 0);
     hdr.date = rng.range(2, 30_000) as u16;
-    hdr.time = (rng.below(80_000) as u32) * 1000 + (uniq % 1000);
+    // (one time in ten inside the last second of the day: 23:59:59.001 .. 23:59:59.999)
+    hdr.time = if rng.chance(1, 10) { 86_399_000 + (uniq % 1000).max(1) } else { (rng.below(80_000) as u32) * 1000 + (uniq % 1000) };
     if sym != b'R' {
         // fixed frames as they really occur: one segment of several (1 of 5 .. 5 of 5), arbitrary
         // halfword counts; a summary counts messages, whatever their headers say about segments
@@ -459,6 +460,23 @@ trivial = empty list; distinct = distinct kind strings; oracle = 60-line referen
                 let prev: Item = items[items.len() - 1].clone();
                 shape = mix(shape, 7777);
                 items.push(prev);
+                continue;
+            }
+            // a burst of frames without a decoder whose type codes are neighbours (24, 25, 24, 26 ...):
+            // every change of type code opens a new group, however alike the types are
+            if rng.chance(1, 24) {
+                let base = loop {
+                    let c = rng.below(253) as u8;
+                    if ![2u8, 5, 31].iter().any(|t| (c..=c + 2).contains(t)) {
+                        break c;
+                    }
+                };
+                for j in 0..rng.urange(2, 6) {
+                    let c = base + [0u8, 1, 0, 2, 1, 1][j % 6];
+                    let it = gen_item(&mut rng, b'O', c, (k * 8 + j) as u32);
+                    shape = mix(shape, 2000 + c as u64);
+                    items.push(it);
+                }
                 continue;
             }
             let it = match rng.below(12) {
